@@ -220,6 +220,24 @@ let more_handle (toks : string list) : string =
        | [ _; _; verdict :: _ ] ->
            if verdict = "same" then "ok" else "chk function_" ^ verdict ^ "_dependent"
        | _ -> "bad line")
+  | "CP" :: path :: _ :: _ :: rest ->
+      (* case-pair family: every member of a pair of expressions equal modulo letter case is judged on
+         its own: reference semantics where defined, otherwise the model of the path *)
+      (match Win.split_hash rest with
+       | [ _; enc; rowt; [ obs ] ] ->
+           let et = p_top enc in let row = parse_row rowt in
+           let expected =
+             (match sem_top row et with
+              | Some v -> Some v
+              | None -> (match et, path with
+                  | _, "select" -> expr_item_value row et
+                  | ETop e, _ -> (match bridge_eval row e with OVal v -> Some v | _ -> None)
+                  | _ -> None)) in
+           (match expected with
+            | None -> "ok"
+            | Some v when val_matches obs v -> "ok nt"
+            | Some v -> "chk case_sensitive_text_" ^ path ^ " impl=" ^ obs ^ " spec=" ^ show_val v)
+       | _ -> "bad line")
   | "M" :: _ :: verdict :: sqlv :: _ ->
       if verdict = "ok" && sqlv <> "PANIC" then "ok" else "chk malformed_" ^ verdict
   | _ -> "bad line"
@@ -331,6 +349,16 @@ let handle05 (toks : string list) : string =
   | "HD" :: _ -> "chk history_dependent"
   | "A" :: _ :: _ :: _ :: v :: _ -> if v = "same" then "ok" else "chk sync_async_differ"
   | "N" :: _ :: v :: _ -> if v = "same" then "ok" else "chk nested_" ^ v
+  | "NS" :: _ :: rest ->
+      (* nested paths x row shapes: the row's result on a fresh stream is the reference (the result
+         depends only on the row and the query); implementation-level differential *)
+      (match Win.split_hash rest with
+       | [ _; _; [ f; u; a ] ] ->
+           let v s = (match String.index_opt s '=' with Some i -> String.sub s (i + 1) (String.length s - i - 1) | None -> s) in
+           if v f <> v u then "chk nested_history_dependent fresh<>used"
+           else if v f <> v a then "chk nested_sync_async_differ fresh<>async"
+           else if String.length (v f) > 0 then "ok nt" else "ok"
+       | _ -> "bad line")
   | "Q" :: _ :: rest ->
       (match Win.split_hash rest with
        | [ _; qenc; rowt; obs ] ->
